@@ -89,7 +89,7 @@ class FunctionTrace:
 
 
 def explore_symbolic(make_world, make_run, shape, *, seed=0, max_paths=10**9, deadline=None,
-                     validate=0, timeout_ms=30000, trace_first=True):
+                     validate=0, timeout_ms=30000, trace_first=True, validate_mode="observations"):
     """make_world(ex, shape, real) -> W ; make_run(W, shape) -> run(ctx) -> Verdict.
     Returns a JSON-able result dict."""
     from symx.engine import Explorer
@@ -171,7 +171,15 @@ def explore_symbolic(make_world, make_run, shape, *, seed=0, max_paths=10**9, de
                                               error="validation replay crashed: " + traceback.format_exc()[-600:]))
             continue
         nat = st2["samples"][0] if st2["samples"] else None
-        if _strip(nat) != _strip(info):
+        if validate_mode == "verdict":
+            # method sets whose outcome legitimately depends on set order (recorded C06/C12 findings): the native
+            # run need not observe the same thing, it must satisfy the property
+            if c2:
+                res["violations"].append(dict(shape=shape, assignment=assignment, world=W2.describe(assignment),
+                                              symbolic_run=info, native_run=c2[0]["info"]))
+            else:
+                res["validated"] += 1
+        elif _strip(nat) != _strip(info):
             res["harness_errors"].append(dict(shape=shape, assignment=assignment, symbolic_run=info, native_run=nat,
                                               error="stub divergence: native run observed something else"))
         else:
